@@ -210,9 +210,13 @@ def run(ck, facts, tier):
             ck.violation(R, "create_refinement_strand:inherits-ambiguous", cr.where(), "a refinement strand must inherit the answer's ambiguity")
     fu = need_body(ck, facts, R, FUL + "fulfill")
     if fu:
-        th = fu.thir
-        keeps = [n for n in walk(th) if n.get("k") == "if" and var_name(n["cond"]) == "ambiguous" and has_call(n["then"], "Vec::push")]
-        src_ok = any(n.get("k") == "let" and n["pat"].get("n") == "ambiguous" and has_call(n["init"], "Solution::is_ambig") for n in walk(th))
+        from kit import FlagFlow
+        th = facts.thir(FUL + "fulfill")             # closures and single-use helpers spliced in
+        flow = FlagFlow(th)
+        # some `if <flag> { obligations.push(obligation) }` whose flag derives from Solution::is_ambig (through lets, match values,
+        # tuples returned by a spliced helper) - no variable name is assumed
+        keeps = [n for n in walk(th) if n.get("k") == "if" and has_call(n["then"], "Vec::push") and flow.depends_on_call(n["cond"], "Solution::is_ambig")]
+        src_ok = bool(keeps)
         if keeps and src_ok:
             ck.ok(R, "fulfill:ambiguous-solution-keeps-obligation")
         else:
